@@ -165,6 +165,7 @@ func (r *vcConnRec) history() []string {
 // registerCloseCallbacks adds k recording callbacks (index 0 registered first).
 func (r *vcConnRec) registerCloseCallbacks(c Connection, k int) {
 	r.ncb = k
+	errs := atomic.AddUint64(&vcCloseCbSeq, 1)%2 == 1
 	for i := 0; i < k; i++ {
 		i := i
 		c.AddCloseCallback(func(Connection) error {
@@ -172,10 +173,19 @@ func (r *vcConnRec) registerCloseCallbacks(c Connection, k int) {
 			if i == 0 { // registered first => runs last
 				r.once.Do(func() { close(r.done) })
 			}
+			// a close callback's return value is the user's business: every second connection has
+			// callbacks that report an error - the others and the teardown must not depend on it
+			if errs && i != 0 {
+				return vcErrCloseCallback
+			}
 			return nil
 		})
 	}
 }
+
+var vcCloseCbSeq uint64
+
+var vcErrCloseCallback = fmt.Errorf("verif: a close callback reporting an error")
 
 // waitClosed waits until the close callbacks have run (bounded).
 func (r *vcConnRec) waitClosed(d time.Duration) bool {
